@@ -112,6 +112,7 @@ def PreC (tr ns : Nat) : Call → St → Prop
 structure GoC (tr ns : Nat) (go : Call → St → St × Ret) : Prop where
   inv : ∀ c s, PreC tr ns c s → CInv tr ns none none (go c s).1
   flush : ∀ fd s0 s, FlushRel s0 s → FlushRel s0 (go (.flush fd) s).1
+  oof : ∀ c s, s.outOfFuel = true → (go c s).1.outOfFuel = true
 
 section
 variable {tr ns : Nat} {cw ex : Option Nat}
